@@ -926,77 +926,96 @@ func packCase(sp *spec) {
 	key := createdKey(sp.Fn)
 	_, hadCreated := sp.Ann[key]
 
-	// ---- projected observable (for the model comparison)
-	var evs []string
-	manifestPushes, blobPushes := 0, 0
-	for _, e := range rec.events {
-		d := e.desc
-		isManifest := string(e.data) != "{}"
-		if errors.Is(e.err, errInjected) { // the fault hit before the content was read
-			isManifest = d.Digest != ocispec.DescriptorEmptyJSON.Digest
-		}
-		switch {
-		case e.kind == "X":
-			evs = append(evs, fmt.Sprintf("X:%s:%s:%d:%s", common.Hex(d.MediaType), common.Hex(string(d.Digest)), d.Size, showAnn(d.Annotations)))
-		case isManifest:
-			manifestPushes++
-			evs = append(evs, fmt.Sprintf("PM:%s:%s:%s", common.Hex(d.MediaType), common.Hex(d.ArtifactType),
-				showAnn(maskNow(d.Annotations, key, hadCreated, t0, t1))))
-		default:
-			blobPushes++
-			evs = append(evs, fmt.Sprintf("PB:%s:%s:%d:%s", common.Hex(d.MediaType), common.Hex(string(d.Digest)), d.Size, showAnn(d.Annotations)))
-		}
+	// ---- projected observable of one call (for the model comparison)
+	type projection struct {
+		obs                        string
+		got                        doc
+		gotMT                      string
+		stored                     []byte
+		parseErr                   error
+		manifestPushes, blobPushes int
 	}
-	ev := "-"
-	if len(evs) > 0 {
-		ev = strings.Join(evs, ";")
-	}
-	var got doc
-	var gotMT string
-	var stored []byte
-	var parseErr error
-	obs := ""
-	if err != nil {
-		obs = "ERR " + kind + " EV " + ev
-	} else {
-		var ferr error
-		stored, ferr = content.FetchAll(ctx, inner, desc)
-		if ferr != nil {
-			parseErr = ferr
-		} else {
-			got, gotMT, parseErr = parseDoc(stored)
-		}
-		if parseErr != nil {
-			obs = "OK unparsable:" + common.Hex(parseErr.Error()) + " EV " + ev
-		} else {
-			// the stored bytes themselves, with the clock's created value replaced by the placeholder
-			shown := stored
-			if raw, ok := got.Ann[key]; ok && !hadCreated {
-				if masked := maskNow(got.Ann, key, hadCreated, t0, t1); masked[key] == nowPlaceholder {
-					kq, _ := json.Marshal(key)
-					vq, _ := json.Marshal(raw)
-					pq, _ := json.Marshal(nowPlaceholder)
-					shown = bytes.Replace(stored, append(append(kq, ':'), vq...), append(append(kq, ':'), pq...), 1)
-				}
+	project := func(rec *recorder, desc ocispec.Descriptor, err error, t0, t1 time.Time) projection {
+		kind := errKind(err)
+		var evs []string
+		manifestPushes, blobPushes := 0, 0
+		for _, e := range rec.events {
+			d := e.desc
+			isManifest := string(e.data) != "{}"
+			if errors.Is(e.err, errInjected) { // the fault hit before the content was read
+				isManifest = d.Digest != ocispec.DescriptorEmptyJSON.Digest
 			}
-			got.Ann = maskNow(got.Ann, key, hadCreated, t0, t1)
-			obs = fmt.Sprintf("OK %s:%s:%s %s EV %s BYTES %s", common.Hex(desc.MediaType), common.Hex(desc.ArtifactType),
-				showAnn(maskNow(desc.Annotations, key, hadCreated, t0, t1)), got.String(), ev, common.Hex(string(shown)))
+			switch {
+			case e.kind == "X":
+				evs = append(evs, fmt.Sprintf("X:%s:%s:%d:%s", common.Hex(d.MediaType), common.Hex(string(d.Digest)), d.Size, showAnn(d.Annotations)))
+			case isManifest:
+				manifestPushes++
+				evs = append(evs, fmt.Sprintf("PM:%s:%s:%s", common.Hex(d.MediaType), common.Hex(d.ArtifactType),
+					showAnn(maskNow(d.Annotations, key, hadCreated, t0, t1))))
+			default:
+				blobPushes++
+				evs = append(evs, fmt.Sprintf("PB:%s:%s:%d:%s", common.Hex(d.MediaType), common.Hex(string(d.Digest)), d.Size, showAnn(d.Annotations)))
+			}
 		}
+		ev := "-"
+		if len(evs) > 0 {
+			ev = strings.Join(evs, ";")
+		}
+		var got doc
+		var gotMT string
+		var stored []byte
+		var parseErr error
+		obs := ""
+		if err != nil {
+			obs = "ERR " + kind + " EV " + ev
+		} else {
+			var ferr error
+			stored, ferr = content.FetchAll(ctx, inner, desc)
+			if ferr != nil {
+				parseErr = ferr
+			} else {
+				got, gotMT, parseErr = parseDoc(stored)
+			}
+			if parseErr != nil {
+				obs = "OK unparsable:" + common.Hex(parseErr.Error()) + " EV " + ev
+			} else {
+				// the stored bytes themselves, with the clock's created value replaced by the placeholder
+				shown := stored
+				if raw, ok := got.Ann[key]; ok && !hadCreated {
+					if masked := maskNow(got.Ann, key, hadCreated, t0, t1); masked[key] == nowPlaceholder {
+						kq, _ := json.Marshal(key)
+						vq, _ := json.Marshal(raw)
+						pq, _ := json.Marshal(nowPlaceholder)
+						shown = bytes.Replace(stored, append(append(kq, ':'), vq...), append(append(kq, ':'), pq...), 1)
+					}
+				}
+				got.Ann = maskNow(got.Ann, key, hadCreated, t0, t1)
+				obs = fmt.Sprintf("OK %s:%s:%s %s EV %s BYTES %s", common.Hex(desc.MediaType), common.Hex(desc.ArtifactType),
+					showAnn(maskNow(desc.Annotations, key, hadCreated, t0, t1)), got.String(), ev, common.Hex(string(shown)))
+			}
+		}
+
+		return projection{obs, got, gotMT, stored, parseErr, manifestPushes, blobPushes}
 	}
-	fa := "-"
-	if sp.FailAt >= 0 {
-		fa = strconv.Itoa(sp.FailAt)
-	}
+	pr := project(rec, desc, err, t0, t1)
+	obs, got, gotMT, stored, parseErr := pr.obs, pr.got, pr.gotMT, pr.stored, pr.parseErr
+	manifestPushes, blobPushes := pr.manifestPushes, pr.blobPushes
 	b01 := func(x bool) string {
 		if x {
 			return "1"
 		}
 		return "0"
 	}
-	model := fmt.Sprintf("K %s %s %s %s %s %s %s %s %s %s %s %s", sp.Fn, b01(sp.Exists), keyKind(sp.Target), fa,
-		common.Hex(sp.AT), showODesc(sp.Subject), showList(sp.Layers, sp.LayersNil), showAnn(sp.Ann), showODesc(sp.Config),
-		showAnn(sp.ConfigAnn), strings.Join(append([]string{"S"}, storeEntries...), ","), common.Hex(specJSON(sp)))
+	modelLine := func(failAt int, entries []string) string {
+		fa := "-"
+		if failAt >= 0 {
+			fa = strconv.Itoa(failAt)
+		}
+		return fmt.Sprintf("K %s %s %s %s %s %s %s %s %s %s %s %s", sp.Fn, b01(sp.Exists), keyKind(sp.Target), fa,
+			common.Hex(sp.AT), showODesc(sp.Subject), showList(sp.Layers, sp.LayersNil), showAnn(sp.Ann), showODesc(sp.Config),
+			showAnn(sp.ConfigAnn), strings.Join(append([]string{"S"}, entries...), ","), common.Hex(specJSON(sp)))
+	}
+	model := modelLine(sp.FailAt, storeEntries)
 	run.Case(id, model, obs)
 	run.Count("fn_" + sp.Fn)
 	run.Count("target_" + sp.Target + map[bool]string{true: "+exists", false: ""}[sp.Exists])
@@ -1138,7 +1157,23 @@ func packCase(sp *spec) {
 		if sp.Exists {
 			p2 = fullStorage{rec2}
 		}
+		// history: the same call again on the same target, compared with the model started from the
+		// store as the first call left it (what it newly pushed is now there)
+		entries2 := append([]string{}, storeEntries...)
+		for _, e := range rec.events {
+			if e.kind == "P" && e.err == nil {
+				x := fmt.Sprintf("%s:%s:%d", common.Hex(e.desc.MediaType), common.Hex(string(e.desc.Digest)), e.desc.Size)
+				if t := e.desc.Annotations[ocispec.AnnotationTitle]; t != "" && sp.Target == "file" {
+					x += ":" + common.Hex(t)
+				}
+				entries2 = append(entries2, x)
+			}
+		}
+		t2 := time.Now()
 		d2, err2 := callPack(sp, p2)
+		pr2 := project(rec2, d2, err2, t2, time.Now())
+		run.Case(run.NewID(), modelLine(-1, entries2), pr2.obs)
+		run.Count("history_second_call")
 		if err2 != nil && sp.Target == "file" && errors.Is(err2, file.ErrDuplicateName) &&
 			(sp.Ann[ocispec.AnnotationTitle] != "" || sp.ConfigAnn[ocispec.AnnotationTitle] != "") {
 			// the file store refuses to write a named file twice (not ErrAlreadyExists): repeating
